@@ -37,27 +37,27 @@ func init() {
 	}
 	// line-at-a-time driver: in continuation mode a non-empty line is only buffered; an empty line (or any line outside continuation mode) compiles buffer+line; an incomplete-input error buffers the line and enters continuation mode; any other outcome leaves continuation mode and clears the buffer before reporting or running  []
 	pathSpec["repl|REPL.Run"] = []string{
-		"[!(py.IsException(py.SystemExit, err!)) && !(recv.continuation) && err == nil && toCompile != \"\"] vm.PrintExpr = recv.term.Print; defer(func() { vm.PrintExpr = oldPrintExpr }()); Compile(toCompile + \"\\n\", recv.prog, py.SingleMode, 0, true); recv.continuation = false; recv.term.SetPrompt(NormalPrompt); recv.previous = \"\"; recv.Context.RunCode(dyn:py.Compile#0, recv.Module.Globals, recv.Module.Globals, nil); TracebackDump(err!) -> nil",
-		"[!(py.IsException(py.SystemExit, err!)) && err == nil && p1 == \"\" && recv.continuation && toCompile != \"\"] vm.PrintExpr = recv.term.Print; defer(func() { vm.PrintExpr = oldPrintExpr }()); Compile(toCompile + \"\\n\", recv.prog, py.SingleMode, 0, true); recv.continuation = false; recv.term.SetPrompt(NormalPrompt); recv.previous = \"\"; recv.Context.RunCode(dyn:py.Compile#0, recv.Module.Globals, recv.Module.Globals, nil); TracebackDump(err!) -> nil",
-		"[!(recv.continuation) && !(strings.Contains((.error).Error#0, \"unexpected EOF while parsing\")) && !(strings.Contains((.error).Error#0, lit)) && err != nil && toCompile != \"\"] vm.PrintExpr = recv.term.Print; defer(func() { vm.PrintExpr = oldPrintExpr }()); Compile(toCompile + \"\\n\", recv.prog, py.SingleMode, 0, true); recv.continuation = false; recv.term.SetPrompt(NormalPrompt); recv.previous = \"\"; recv.term.Print(fmt.Sprintf#0) -> nil",
-		"[!(recv.continuation) && !(strings.Contains((.error).Error#0, \"unexpected EOF while parsing\")) && err != nil && len(strings.TrimSpace#0) != 0 && strings.Contains((.error).Error#0, lit) && strings.TrimSpace#0[0] != 35 && toCompile != \"\"] vm.PrintExpr = recv.term.Print; defer(func() { vm.PrintExpr = oldPrintExpr }()); Compile(toCompile + \"\\n\", recv.prog, py.SingleMode, 0, true); recv.continuation = true; r.previous += string(p1) + \"\\n\"; recv.term.SetPrompt(ContinuationPrompt) -> nil",
-		"[!(recv.continuation) && !(strings.Contains((.error).Error#0, \"unexpected EOF while parsing\")) && err != nil && len(strings.TrimSpace#0) != 0 && strings.Contains((.error).Error#0, lit) && strings.TrimSpace#0[0] == 35 && toCompile != \"\"] vm.PrintExpr = recv.term.Print; defer(func() { vm.PrintExpr = oldPrintExpr }()); Compile(toCompile + \"\\n\", recv.prog, py.SingleMode, 0, true) -> nil",
-		"[!(recv.continuation) && !(strings.Contains((.error).Error#0, \"unexpected EOF while parsing\")) && err != nil && len(strings.TrimSpace#0) == 0 && strings.Contains((.error).Error#0, lit) && toCompile != \"\"] vm.PrintExpr = recv.term.Print; defer(func() { vm.PrintExpr = oldPrintExpr }()); Compile(toCompile + \"\\n\", recv.prog, py.SingleMode, 0, true); recv.continuation = true; r.previous += string(p1) + \"\\n\"; recv.term.SetPrompt(ContinuationPrompt) -> nil",
-		"[!(recv.continuation) && err != nil && len(strings.TrimSpace#0) != 0 && strings.Contains((.error).Error#0, \"unexpected EOF while parsing\") && strings.TrimSpace#0[0] != 35 && toCompile != \"\"] vm.PrintExpr = recv.term.Print; defer(func() { vm.PrintExpr = oldPrintExpr }()); Compile(toCompile + \"\\n\", recv.prog, py.SingleMode, 0, true); recv.continuation = true; r.previous += string(p1) + \"\\n\"; recv.term.SetPrompt(ContinuationPrompt) -> nil",
-		"[!(recv.continuation) && err != nil && len(strings.TrimSpace#0) != 0 && strings.Contains((.error).Error#0, \"unexpected EOF while parsing\") && strings.TrimSpace#0[0] == 35 && toCompile != \"\"] vm.PrintExpr = recv.term.Print; defer(func() { vm.PrintExpr = oldPrintExpr }()); Compile(toCompile + \"\\n\", recv.prog, py.SingleMode, 0, true) -> nil",
-		"[!(recv.continuation) && err != nil && len(strings.TrimSpace#0) == 0 && strings.Contains((.error).Error#0, \"unexpected EOF while parsing\") && toCompile != \"\"] vm.PrintExpr = recv.term.Print; defer(func() { vm.PrintExpr = oldPrintExpr }()); Compile(toCompile + \"\\n\", recv.prog, py.SingleMode, 0, true); recv.continuation = true; r.previous += string(p1) + \"\\n\"; recv.term.SetPrompt(ContinuationPrompt) -> nil",
-		"[!(recv.continuation) && err == nil && py.IsException(py.SystemExit, err!) && toCompile != \"\"] vm.PrintExpr = recv.term.Print; defer(func() { vm.PrintExpr = oldPrintExpr }()); Compile(toCompile + \"\\n\", recv.prog, py.SingleMode, 0, true); recv.continuation = false; recv.term.SetPrompt(NormalPrompt); recv.previous = \"\"; recv.Context.RunCode(dyn:py.Compile#0, recv.Module.Globals, recv.Module.Globals, nil) -> err!",
-		"[!(recv.continuation) && err == nil && toCompile != \"\"] vm.PrintExpr = recv.term.Print; defer(func() { vm.PrintExpr = oldPrintExpr }()); Compile(toCompile + \"\\n\", recv.prog, py.SingleMode, 0, true); recv.continuation = false; recv.term.SetPrompt(NormalPrompt); recv.previous = \"\"; recv.Context.RunCode(dyn:py.Compile#0, recv.Module.Globals, recv.Module.Globals, nil) -> nil",
+		"[!(py.IsException(py.SystemExit, err!)) && !(recv.continuation) && (py.Context).RunCode#1 != nil && dyn:py.Compile#1 == nil && toCompile != \"\"] vm.PrintExpr = recv.term.Print; defer(func() { vm.PrintExpr = oldPrintExpr }()); Compile(toCompile + \"\\n\", recv.prog, py.SingleMode, 0, true); recv.continuation = false; recv.term.SetPrompt(\">>> \"); recv.previous = \"\"; recv.Context.RunCode(dyn:py.Compile#0, recv.Module.Globals, recv.Module.Globals, nil); TracebackDump(err!) -> nil",
+		"[!(py.IsException(py.SystemExit, err!)) && (py.Context).RunCode#1 != nil && dyn:py.Compile#1 == nil && p1 == \"\" && recv.continuation && toCompile != \"\"] vm.PrintExpr = recv.term.Print; defer(func() { vm.PrintExpr = oldPrintExpr }()); Compile(toCompile + \"\\n\", recv.prog, py.SingleMode, 0, true); recv.continuation = false; recv.term.SetPrompt(\">>> \"); recv.previous = \"\"; recv.Context.RunCode(dyn:py.Compile#0, recv.Module.Globals, recv.Module.Globals, nil); TracebackDump(err!) -> nil",
+		"[!(recv.continuation) && !(strings.Contains((.error).Error#0, \"EOF while scanning triple-quote…#1cd5d4c0\")) && !(strings.Contains((.error).Error#0, \"unexpected EOF while parsing\")) && dyn:py.Compile#1 != nil && toCompile != \"\"] vm.PrintExpr = recv.term.Print; defer(func() { vm.PrintExpr = oldPrintExpr }()); Compile(toCompile + \"\\n\", recv.prog, py.SingleMode, 0, true); recv.continuation = false; recv.term.SetPrompt(\">>> \"); recv.previous = \"\"; recv.term.Print(fmt.Sprintf#0) -> nil",
+		"[!(recv.continuation) && !(strings.Contains((.error).Error#0, \"unexpected EOF while parsing\")) && dyn:py.Compile#1 != nil && len(strings.TrimSpace#0) != 0 && strings.Contains((.error).Error#0, \"EOF while scanning triple-quote…#1cd5d4c0\") && strings.TrimSpace#0[0] != 35 && toCompile != \"\"] vm.PrintExpr = recv.term.Print; defer(func() { vm.PrintExpr = oldPrintExpr }()); Compile(toCompile + \"\\n\", recv.prog, py.SingleMode, 0, true); recv.continuation = true; r.previous += string(p1) + \"\\n\"; recv.term.SetPrompt(\"... \") -> nil",
+		"[!(recv.continuation) && !(strings.Contains((.error).Error#0, \"unexpected EOF while parsing\")) && dyn:py.Compile#1 != nil && len(strings.TrimSpace#0) != 0 && strings.Contains((.error).Error#0, \"EOF while scanning triple-quote…#1cd5d4c0\") && strings.TrimSpace#0[0] == 35 && toCompile != \"\"] vm.PrintExpr = recv.term.Print; defer(func() { vm.PrintExpr = oldPrintExpr }()); Compile(toCompile + \"\\n\", recv.prog, py.SingleMode, 0, true) -> nil",
+		"[!(recv.continuation) && !(strings.Contains((.error).Error#0, \"unexpected EOF while parsing\")) && dyn:py.Compile#1 != nil && len(strings.TrimSpace#0) == 0 && strings.Contains((.error).Error#0, \"EOF while scanning triple-quote…#1cd5d4c0\") && toCompile != \"\"] vm.PrintExpr = recv.term.Print; defer(func() { vm.PrintExpr = oldPrintExpr }()); Compile(toCompile + \"\\n\", recv.prog, py.SingleMode, 0, true); recv.continuation = true; r.previous += string(p1) + \"\\n\"; recv.term.SetPrompt(\"... \") -> nil",
+		"[!(recv.continuation) && (py.Context).RunCode#1 != nil && dyn:py.Compile#1 == nil && py.IsException(py.SystemExit, err!) && toCompile != \"\"] vm.PrintExpr = recv.term.Print; defer(func() { vm.PrintExpr = oldPrintExpr }()); Compile(toCompile + \"\\n\", recv.prog, py.SingleMode, 0, true); recv.continuation = false; recv.term.SetPrompt(\">>> \"); recv.previous = \"\"; recv.Context.RunCode(dyn:py.Compile#0, recv.Module.Globals, recv.Module.Globals, nil) -> err!",
+		"[!(recv.continuation) && (py.Context).RunCode#1 == nil && dyn:py.Compile#1 == nil && toCompile != \"\"] vm.PrintExpr = recv.term.Print; defer(func() { vm.PrintExpr = oldPrintExpr }()); Compile(toCompile + \"\\n\", recv.prog, py.SingleMode, 0, true); recv.continuation = false; recv.term.SetPrompt(\">>> \"); recv.previous = \"\"; recv.Context.RunCode(dyn:py.Compile#0, recv.Module.Globals, recv.Module.Globals, nil) -> nil",
+		"[!(recv.continuation) && dyn:py.Compile#1 != nil && len(strings.TrimSpace#0) != 0 && strings.Contains((.error).Error#0, \"unexpected EOF while parsing\") && strings.TrimSpace#0[0] != 35 && toCompile != \"\"] vm.PrintExpr = recv.term.Print; defer(func() { vm.PrintExpr = oldPrintExpr }()); Compile(toCompile + \"\\n\", recv.prog, py.SingleMode, 0, true); recv.continuation = true; r.previous += string(p1) + \"\\n\"; recv.term.SetPrompt(\"... \") -> nil",
+		"[!(recv.continuation) && dyn:py.Compile#1 != nil && len(strings.TrimSpace#0) != 0 && strings.Contains((.error).Error#0, \"unexpected EOF while parsing\") && strings.TrimSpace#0[0] == 35 && toCompile != \"\"] vm.PrintExpr = recv.term.Print; defer(func() { vm.PrintExpr = oldPrintExpr }()); Compile(toCompile + \"\\n\", recv.prog, py.SingleMode, 0, true) -> nil",
+		"[!(recv.continuation) && dyn:py.Compile#1 != nil && len(strings.TrimSpace#0) == 0 && strings.Contains((.error).Error#0, \"unexpected EOF while parsing\") && toCompile != \"\"] vm.PrintExpr = recv.term.Print; defer(func() { vm.PrintExpr = oldPrintExpr }()); Compile(toCompile + \"\\n\", recv.prog, py.SingleMode, 0, true); recv.continuation = true; r.previous += string(p1) + \"\\n\"; recv.term.SetPrompt(\"... \") -> nil",
 		"[!(recv.continuation) && toCompile == \"\"] vm.PrintExpr = recv.term.Print; defer(func() { vm.PrintExpr = oldPrintExpr }()) -> nil",
-		"[!(strings.Contains((.error).Error#0, \"unexpected EOF while parsing\")) && !(strings.Contains((.error).Error#0, lit)) && err != nil && p1 == \"\" && recv.continuation && toCompile != \"\"] vm.PrintExpr = recv.term.Print; defer(func() { vm.PrintExpr = oldPrintExpr }()); Compile(toCompile + \"\\n\", recv.prog, py.SingleMode, 0, true); recv.continuation = false; recv.term.SetPrompt(NormalPrompt); recv.previous = \"\"; recv.term.Print(fmt.Sprintf#0) -> nil",
-		"[!(strings.Contains((.error).Error#0, \"unexpected EOF while parsing\")) && err != nil && len(strings.TrimSpace#0) != 0 && p1 == \"\" && recv.continuation && strings.Contains((.error).Error#0, lit) && strings.TrimSpace#0[0] != 35 && toCompile != \"\"] vm.PrintExpr = recv.term.Print; defer(func() { vm.PrintExpr = oldPrintExpr }()); Compile(toCompile + \"\\n\", recv.prog, py.SingleMode, 0, true); recv.continuation = true; r.previous += string(p1) + \"\\n\"; recv.term.SetPrompt(ContinuationPrompt) -> nil",
-		"[!(strings.Contains((.error).Error#0, \"unexpected EOF while parsing\")) && err != nil && len(strings.TrimSpace#0) != 0 && p1 == \"\" && recv.continuation && strings.Contains((.error).Error#0, lit) && strings.TrimSpace#0[0] == 35 && toCompile != \"\"] vm.PrintExpr = recv.term.Print; defer(func() { vm.PrintExpr = oldPrintExpr }()); Compile(toCompile + \"\\n\", recv.prog, py.SingleMode, 0, true) -> nil",
-		"[!(strings.Contains((.error).Error#0, \"unexpected EOF while parsing\")) && err != nil && len(strings.TrimSpace#0) == 0 && p1 == \"\" && recv.continuation && strings.Contains((.error).Error#0, lit) && toCompile != \"\"] vm.PrintExpr = recv.term.Print; defer(func() { vm.PrintExpr = oldPrintExpr }()); Compile(toCompile + \"\\n\", recv.prog, py.SingleMode, 0, true); recv.continuation = true; r.previous += string(p1) + \"\\n\"; recv.term.SetPrompt(ContinuationPrompt) -> nil",
-		"[err != nil && len(strings.TrimSpace#0) != 0 && p1 == \"\" && recv.continuation && strings.Contains((.error).Error#0, \"unexpected EOF while parsing\") && strings.TrimSpace#0[0] != 35 && toCompile != \"\"] vm.PrintExpr = recv.term.Print; defer(func() { vm.PrintExpr = oldPrintExpr }()); Compile(toCompile + \"\\n\", recv.prog, py.SingleMode, 0, true); recv.continuation = true; r.previous += string(p1) + \"\\n\"; recv.term.SetPrompt(ContinuationPrompt) -> nil",
-		"[err != nil && len(strings.TrimSpace#0) != 0 && p1 == \"\" && recv.continuation && strings.Contains((.error).Error#0, \"unexpected EOF while parsing\") && strings.TrimSpace#0[0] == 35 && toCompile != \"\"] vm.PrintExpr = recv.term.Print; defer(func() { vm.PrintExpr = oldPrintExpr }()); Compile(toCompile + \"\\n\", recv.prog, py.SingleMode, 0, true) -> nil",
-		"[err != nil && len(strings.TrimSpace#0) == 0 && p1 == \"\" && recv.continuation && strings.Contains((.error).Error#0, \"unexpected EOF while parsing\") && toCompile != \"\"] vm.PrintExpr = recv.term.Print; defer(func() { vm.PrintExpr = oldPrintExpr }()); Compile(toCompile + \"\\n\", recv.prog, py.SingleMode, 0, true); recv.continuation = true; r.previous += string(p1) + \"\\n\"; recv.term.SetPrompt(ContinuationPrompt) -> nil",
-		"[err == nil && p1 == \"\" && py.IsException(py.SystemExit, err!) && recv.continuation && toCompile != \"\"] vm.PrintExpr = recv.term.Print; defer(func() { vm.PrintExpr = oldPrintExpr }()); Compile(toCompile + \"\\n\", recv.prog, py.SingleMode, 0, true); recv.continuation = false; recv.term.SetPrompt(NormalPrompt); recv.previous = \"\"; recv.Context.RunCode(dyn:py.Compile#0, recv.Module.Globals, recv.Module.Globals, nil) -> err!",
-		"[err == nil && p1 == \"\" && recv.continuation && toCompile != \"\"] vm.PrintExpr = recv.term.Print; defer(func() { vm.PrintExpr = oldPrintExpr }()); Compile(toCompile + \"\\n\", recv.prog, py.SingleMode, 0, true); recv.continuation = false; recv.term.SetPrompt(NormalPrompt); recv.previous = \"\"; recv.Context.RunCode(dyn:py.Compile#0, recv.Module.Globals, recv.Module.Globals, nil) -> nil",
+		"[!(strings.Contains((.error).Error#0, \"EOF while scanning triple-quote…#1cd5d4c0\")) && !(strings.Contains((.error).Error#0, \"unexpected EOF while parsing\")) && dyn:py.Compile#1 != nil && p1 == \"\" && recv.continuation && toCompile != \"\"] vm.PrintExpr = recv.term.Print; defer(func() { vm.PrintExpr = oldPrintExpr }()); Compile(toCompile + \"\\n\", recv.prog, py.SingleMode, 0, true); recv.continuation = false; recv.term.SetPrompt(\">>> \"); recv.previous = \"\"; recv.term.Print(fmt.Sprintf#0) -> nil",
+		"[!(strings.Contains((.error).Error#0, \"unexpected EOF while parsing\")) && dyn:py.Compile#1 != nil && len(strings.TrimSpace#0) != 0 && p1 == \"\" && recv.continuation && strings.Contains((.error).Error#0, \"EOF while scanning triple-quote…#1cd5d4c0\") && strings.TrimSpace#0[0] != 35 && toCompile != \"\"] vm.PrintExpr = recv.term.Print; defer(func() { vm.PrintExpr = oldPrintExpr }()); Compile(toCompile + \"\\n\", recv.prog, py.SingleMode, 0, true); recv.continuation = true; r.previous += string(p1) + \"\\n\"; recv.term.SetPrompt(\"... \") -> nil",
+		"[!(strings.Contains((.error).Error#0, \"unexpected EOF while parsing\")) && dyn:py.Compile#1 != nil && len(strings.TrimSpace#0) != 0 && p1 == \"\" && recv.continuation && strings.Contains((.error).Error#0, \"EOF while scanning triple-quote…#1cd5d4c0\") && strings.TrimSpace#0[0] == 35 && toCompile != \"\"] vm.PrintExpr = recv.term.Print; defer(func() { vm.PrintExpr = oldPrintExpr }()); Compile(toCompile + \"\\n\", recv.prog, py.SingleMode, 0, true) -> nil",
+		"[!(strings.Contains((.error).Error#0, \"unexpected EOF while parsing\")) && dyn:py.Compile#1 != nil && len(strings.TrimSpace#0) == 0 && p1 == \"\" && recv.continuation && strings.Contains((.error).Error#0, \"EOF while scanning triple-quote…#1cd5d4c0\") && toCompile != \"\"] vm.PrintExpr = recv.term.Print; defer(func() { vm.PrintExpr = oldPrintExpr }()); Compile(toCompile + \"\\n\", recv.prog, py.SingleMode, 0, true); recv.continuation = true; r.previous += string(p1) + \"\\n\"; recv.term.SetPrompt(\"... \") -> nil",
+		"[(py.Context).RunCode#1 != nil && dyn:py.Compile#1 == nil && p1 == \"\" && py.IsException(py.SystemExit, err!) && recv.continuation && toCompile != \"\"] vm.PrintExpr = recv.term.Print; defer(func() { vm.PrintExpr = oldPrintExpr }()); Compile(toCompile + \"\\n\", recv.prog, py.SingleMode, 0, true); recv.continuation = false; recv.term.SetPrompt(\">>> \"); recv.previous = \"\"; recv.Context.RunCode(dyn:py.Compile#0, recv.Module.Globals, recv.Module.Globals, nil) -> err!",
+		"[(py.Context).RunCode#1 == nil && dyn:py.Compile#1 == nil && p1 == \"\" && recv.continuation && toCompile != \"\"] vm.PrintExpr = recv.term.Print; defer(func() { vm.PrintExpr = oldPrintExpr }()); Compile(toCompile + \"\\n\", recv.prog, py.SingleMode, 0, true); recv.continuation = false; recv.term.SetPrompt(\">>> \"); recv.previous = \"\"; recv.Context.RunCode(dyn:py.Compile#0, recv.Module.Globals, recv.Module.Globals, nil) -> nil",
+		"[dyn:py.Compile#1 != nil && len(strings.TrimSpace#0) != 0 && p1 == \"\" && recv.continuation && strings.Contains((.error).Error#0, \"unexpected EOF while parsing\") && strings.TrimSpace#0[0] != 35 && toCompile != \"\"] vm.PrintExpr = recv.term.Print; defer(func() { vm.PrintExpr = oldPrintExpr }()); Compile(toCompile + \"\\n\", recv.prog, py.SingleMode, 0, true); recv.continuation = true; r.previous += string(p1) + \"\\n\"; recv.term.SetPrompt(\"... \") -> nil",
+		"[dyn:py.Compile#1 != nil && len(strings.TrimSpace#0) != 0 && p1 == \"\" && recv.continuation && strings.Contains((.error).Error#0, \"unexpected EOF while parsing\") && strings.TrimSpace#0[0] == 35 && toCompile != \"\"] vm.PrintExpr = recv.term.Print; defer(func() { vm.PrintExpr = oldPrintExpr }()); Compile(toCompile + \"\\n\", recv.prog, py.SingleMode, 0, true) -> nil",
+		"[dyn:py.Compile#1 != nil && len(strings.TrimSpace#0) == 0 && p1 == \"\" && recv.continuation && strings.Contains((.error).Error#0, \"unexpected EOF while parsing\") && toCompile != \"\"] vm.PrintExpr = recv.term.Print; defer(func() { vm.PrintExpr = oldPrintExpr }()); Compile(toCompile + \"\\n\", recv.prog, py.SingleMode, 0, true); recv.continuation = true; r.previous += string(p1) + \"\\n\"; recv.term.SetPrompt(\"... \") -> nil",
 		"[p1 != \"\" && recv.continuation] vm.PrintExpr = recv.term.Print; defer(func() { vm.PrintExpr = oldPrintExpr }()); r.previous += string(p1) + \"\\n\" -> nil",
 		"[p1 == \"\" && recv.continuation && toCompile == \"\"] vm.PrintExpr = recv.term.Print; defer(func() { vm.PrintExpr = oldPrintExpr }()) -> nil",
 	}
@@ -69,23 +69,23 @@ func init() {
 	}
 	// sequence unpacking (UNPACK_SEQUENCE / UNPACK_EX): the first argcnt items are stored downwards from the top so that the leftmost target is popped first; the starred list takes the rest; the after-star items are taken from the end of that list in the same downward order [ceval.c unpack_iterable]  []
 	pathSpec["vm|unpack_iterable"] = []string{
-		"[!(py.IsException(py.StopIteration, err!)) && err == nil && p4 == -1] Iter(p2); LOOP(for k1 = 0; k1 < p3; k1++){[!(py.IsException(py.StopIteration, err!)) && err != nil] Next(py.Iter#0); IsException(py.StopIteration, err!) return | [err != nil && py.IsException(py.StopIteration, err!)] Next(py.Iter#0); IsException(py.StopIteration, err!); ExceptionNewf(py.ValueError, \"need more than %d value(s) to unpack\", loop:k1) return | [err == nil] Next(py.Iter#0) }; Next(py.Iter#0); IsException(py.StopIteration, err!) -> err!",
-		"[!(py.IsException(py.StopIteration, err!)) && err == nil] Iter(p2); Next(py.Iter#0); IsException(py.StopIteration, err!) -> err!",
-		"[err != nil] Iter(p2) -> err!",
-		"[err == nil && len(l.Items) - p4 <= -1 && p4 != -1] Iter(p2); LOOP(for k1 = 0; k1 < p3; k1++){[!(py.IsException(py.StopIteration, err!)) && err != nil] Next(py.Iter#0); IsException(py.StopIteration, err!) return | [err != nil && py.IsException(py.StopIteration, err!)] Next(py.Iter#0); IsException(py.StopIteration, err!); ExceptionNewf(py.ValueError, \"need more than %d value(s) to unpack\", loop:k1) return | [err == nil] Next(py.Iter#0) }; SequenceList(py.Iter#0); py.SequenceList#0.Len(); ExceptionNewf(py.ValueError, \"need more than %d values to unpack\", len(l.Items) + p3) -> err!",
-		"[err == nil && len(l.Items) - p4 >= 0 && p4 != -1] Iter(p2); LOOP(for k1 = 0; k1 < p3; k1++){[!(py.IsException(py.StopIteration, err!)) && err != nil] Next(py.Iter#0); IsException(py.StopIteration, err!) return | [err != nil && py.IsException(py.StopIteration, err!)] Next(py.Iter#0); IsException(py.StopIteration, err!); ExceptionNewf(py.ValueError, \"need more than %d value(s) to unpack\", loop:k1) return | [err == nil] Next(py.Iter#0) }; SequenceList(py.Iter#0); py.SequenceList#0.Len(); LOOP(for k1 = argcntafter; k1 > 0; k1--){[err != nil] py.SequenceList#0.M__getitem__(len(l.Items) - loop:k1) return | [err == nil] py.SequenceList#0.M__getitem__(len(l.Items) - loop:k1) }; py.SequenceList#0.Resize(len(l.Items) - p4) -> nil",
-		"[err == nil && len(l.Items) - p4 >= 0 && p4 != -1] Iter(p2); LOOP(for k1 = 0; k1 < p3; k1++){[!(py.IsException(py.StopIteration, err!)) && err != nil] Next(py.Iter#0); IsException(py.StopIteration, err!) return | [err != nil && py.IsException(py.StopIteration, err!)] Next(py.Iter#0); IsException(py.StopIteration, err!); ExceptionNewf(py.ValueError, \"need more than %d value(s) to unpack\", loop:k1) return | [err == nil] Next(py.Iter#0) }; SequenceList(py.Iter#0); py.SequenceList#0.Len(); py.SequenceList#0.M__getitem__(len(l.Items) - loop:k1) -> err!",
-		"[err == nil && p4 != -1] Iter(p2); LOOP(for k1 = 0; k1 < p3; k1++){[!(py.IsException(py.StopIteration, err!)) && err != nil] Next(py.Iter#0); IsException(py.StopIteration, err!) return | [err != nil && py.IsException(py.StopIteration, err!)] Next(py.Iter#0); IsException(py.StopIteration, err!); ExceptionNewf(py.ValueError, \"need more than %d value(s) to unpack\", loop:k1) return | [err == nil] Next(py.Iter#0) }; SequenceList(py.Iter#0) -> err!",
-		"[err == nil && p4 == -1 && py.IsException(py.StopIteration, err!)] Iter(p2); LOOP(for k1 = 0; k1 < p3; k1++){[!(py.IsException(py.StopIteration, err!)) && err != nil] Next(py.Iter#0); IsException(py.StopIteration, err!) return | [err != nil && py.IsException(py.StopIteration, err!)] Next(py.Iter#0); IsException(py.StopIteration, err!); ExceptionNewf(py.ValueError, \"need more than %d value(s) to unpack\", loop:k1) return | [err == nil] Next(py.Iter#0) }; Next(py.Iter#0); IsException(py.StopIteration, err!) -> nil",
-		"[err == nil && p4 == -1] Iter(p2); LOOP(for k1 = 0; k1 < p3; k1++){[!(py.IsException(py.StopIteration, err!)) && err != nil] Next(py.Iter#0); IsException(py.StopIteration, err!) return | [err != nil && py.IsException(py.StopIteration, err!)] Next(py.Iter#0); IsException(py.StopIteration, err!); ExceptionNewf(py.ValueError, \"need more than %d value(s) to unpack\", loop:k1) return | [err == nil] Next(py.Iter#0) }; Next(py.Iter#0); ExceptionNewf(py.ValueError, \"too many values to unpack (expected %d)\", p3) -> err!",
-		"[err == nil && py.IsException(py.StopIteration, err!)] Iter(p2); Next(py.Iter#0); IsException(py.StopIteration, err!); ExceptionNewf(py.ValueError, \"need more than %d value(s) to unpack\", loop:k1) -> err!",
+		"[!(py.IsException(py.StopIteration, err!)) && p4 == -1 && py.Iter#1 == nil && py.Next#1 != nil] Iter(p2); LOOP(for k1 = 0; k1 < p3; k1++){[!(py.IsException(py.StopIteration, err!)) && py.Next#1 != nil] Next(py.Iter#0); IsException(py.StopIteration, err!) return | [py.IsException(py.StopIteration, err!) && py.Next#1 != nil] Next(py.Iter#0); IsException(py.StopIteration, err!); ExceptionNewf(py.ValueError, \"need more than %d value(s) to unpack\", loop:k1) return | [py.Next#1 == nil] Next(py.Iter#0) }; Next(py.Iter#0); IsException(py.StopIteration, err!) -> err!",
+		"[!(py.IsException(py.StopIteration, err!)) && py.Iter#1 == nil && py.Next#1 != nil] Iter(p2); Next(py.Iter#0); IsException(py.StopIteration, err!) -> err!",
+		"[(*py.List).M__getitem__#1 != nil && len(l.Items) - p4 >= 0 && p4 != -1 && py.Iter#1 == nil && py.SequenceList#1 == nil] Iter(p2); LOOP(for k1 = 0; k1 < p3; k1++){[!(py.IsException(py.StopIteration, err!)) && py.Next#1 != nil] Next(py.Iter#0); IsException(py.StopIteration, err!) return | [py.IsException(py.StopIteration, err!) && py.Next#1 != nil] Next(py.Iter#0); IsException(py.StopIteration, err!); ExceptionNewf(py.ValueError, \"need more than %d value(s) to unpack\", loop:k1) return | [py.Next#1 == nil] Next(py.Iter#0) }; SequenceList(py.Iter#0); py.SequenceList#0.Len(); py.SequenceList#0.M__getitem__(len(l.Items) - loop:k1) -> err!",
+		"[len(l.Items) - p4 <= -1 && p4 != -1 && py.Iter#1 == nil && py.SequenceList#1 == nil] Iter(p2); LOOP(for k1 = 0; k1 < p3; k1++){[!(py.IsException(py.StopIteration, err!)) && py.Next#1 != nil] Next(py.Iter#0); IsException(py.StopIteration, err!) return | [py.IsException(py.StopIteration, err!) && py.Next#1 != nil] Next(py.Iter#0); IsException(py.StopIteration, err!); ExceptionNewf(py.ValueError, \"need more than %d value(s) to unpack\", loop:k1) return | [py.Next#1 == nil] Next(py.Iter#0) }; SequenceList(py.Iter#0); py.SequenceList#0.Len(); ExceptionNewf(py.ValueError, \"need more than %d values to unpack\", len(l.Items) + p3) -> err!",
+		"[len(l.Items) - p4 >= 0 && p4 != -1 && py.Iter#1 == nil && py.SequenceList#1 == nil] Iter(p2); LOOP(for k1 = 0; k1 < p3; k1++){[!(py.IsException(py.StopIteration, err!)) && py.Next#1 != nil] Next(py.Iter#0); IsException(py.StopIteration, err!) return | [py.IsException(py.StopIteration, err!) && py.Next#1 != nil] Next(py.Iter#0); IsException(py.StopIteration, err!); ExceptionNewf(py.ValueError, \"need more than %d value(s) to unpack\", loop:k1) return | [py.Next#1 == nil] Next(py.Iter#0) }; SequenceList(py.Iter#0); py.SequenceList#0.Len(); LOOP(for k1 = argcntafter; k1 > 0; k1--){[(*py.List).M__getitem__#1 != nil] py.SequenceList#0.M__getitem__(len(l.Items) - loop:k1) return | [(*py.List).M__getitem__#1 == nil] py.SequenceList#0.M__getitem__(len(l.Items) - loop:k1) }; py.SequenceList#0.Resize(len(l.Items) - p4) -> nil",
+		"[p4 != -1 && py.Iter#1 == nil && py.SequenceList#1 != nil] Iter(p2); LOOP(for k1 = 0; k1 < p3; k1++){[!(py.IsException(py.StopIteration, err!)) && py.Next#1 != nil] Next(py.Iter#0); IsException(py.StopIteration, err!) return | [py.IsException(py.StopIteration, err!) && py.Next#1 != nil] Next(py.Iter#0); IsException(py.StopIteration, err!); ExceptionNewf(py.ValueError, \"need more than %d value(s) to unpack\", loop:k1) return | [py.Next#1 == nil] Next(py.Iter#0) }; SequenceList(py.Iter#0) -> err!",
+		"[p4 == -1 && py.IsException(py.StopIteration, err!) && py.Iter#1 == nil && py.Next#1 != nil] Iter(p2); LOOP(for k1 = 0; k1 < p3; k1++){[!(py.IsException(py.StopIteration, err!)) && py.Next#1 != nil] Next(py.Iter#0); IsException(py.StopIteration, err!) return | [py.IsException(py.StopIteration, err!) && py.Next#1 != nil] Next(py.Iter#0); IsException(py.StopIteration, err!); ExceptionNewf(py.ValueError, \"need more than %d value(s) to unpack\", loop:k1) return | [py.Next#1 == nil] Next(py.Iter#0) }; Next(py.Iter#0); IsException(py.StopIteration, err!) -> nil",
+		"[p4 == -1 && py.Iter#1 == nil && py.Next#1 == nil] Iter(p2); LOOP(for k1 = 0; k1 < p3; k1++){[!(py.IsException(py.StopIteration, err!)) && py.Next#1 != nil] Next(py.Iter#0); IsException(py.StopIteration, err!) return | [py.IsException(py.StopIteration, err!) && py.Next#1 != nil] Next(py.Iter#0); IsException(py.StopIteration, err!); ExceptionNewf(py.ValueError, \"need more than %d value(s) to unpack\", loop:k1) return | [py.Next#1 == nil] Next(py.Iter#0) }; Next(py.Iter#0); ExceptionNewf(py.ValueError, \"too many values to unpack (expected %d)\", p3) -> err!",
+		"[py.IsException(py.StopIteration, err!) && py.Iter#1 == nil && py.Next#1 != nil] Iter(p2); Next(py.Iter#0); IsException(py.StopIteration, err!); ExceptionNewf(py.ValueError, \"need more than %d value(s) to unpack\", loop:k1) -> err!",
+		"[py.Iter#1 != nil] Iter(p2) -> err!",
 	}
 	// with statement entry: __exit__ is looked up and pushed, __enter__ is looked up and called, and only after it returned without error is the finally block pushed and the result pushed — an exception from __enter__ must not run __exit__ [ceval.c SETUP_WITH]  []
 	pathSpec["vm|do_SETUP_WITH"] = []string{
-		"[err != nil] GetAttrString(slot0, \"__exit__\") -> err!",
-		"[err == nil] GetAttrString(slot0, \"__exit__\"); GetAttrString(slot0, \"__enter__\") -> err!",
-		"[err == nil] GetAttrString(slot0, \"__exit__\"); GetAttrString(slot0, \"__enter__\"); Call(py.GetAttrString#0'2, nil, nil) -> err!",
-		"[err == nil] GetAttrString(slot0, \"__exit__\"); GetAttrString(slot0, \"__enter__\"); Call(py.GetAttrString#0'2, nil, nil); vm.frame.PushBlock(2, p2 + vm.frame.Lasti, H0) -> nil",
+		"[py.Call#1 != nil && py.GetAttrString#1 == nil && py.GetAttrString#1'2 == nil] GetAttrString(slot0, \"__exit__\"); GetAttrString(slot0, \"__enter__\"); Call(py.GetAttrString#0'2, nil, nil) -> err!",
+		"[py.Call#1 == nil && py.GetAttrString#1 == nil && py.GetAttrString#1'2 == nil] GetAttrString(slot0, \"__exit__\"); GetAttrString(slot0, \"__enter__\"); Call(py.GetAttrString#0'2, nil, nil); vm.frame.PushBlock(2, p2 + vm.frame.Lasti, H0) -> nil",
+		"[py.GetAttrString#1 != nil] GetAttrString(slot0, \"__exit__\") -> err!",
+		"[py.GetAttrString#1 == nil && py.GetAttrString#1'2 != nil] GetAttrString(slot0, \"__exit__\"); GetAttrString(slot0, \"__enter__\") -> err!",
 	}
 	// the implicit `return None` is omitted only when the very last element of the instruction stream is a RETURN_VALUE: a trailing label is a jump target that needs an instruction after it  []
 	pathSpec["compile|Instructions.EndsWithReturn"] = []string{
@@ -113,24 +113,24 @@ func init() {
 	}
 	// name lookup in a namespace block: locals, then globals, then builtins, NameError last [ceval.c]  []
 	pathSpec["vm|do_LOAD_NAME"] = []string{
-		"[!(ok)] vm.frame.Lookup(vm.frame.Code.Names[p2]); ExceptionNewf(py.NameError, nameErrorMsg, vm.frame.Code.Names[p2]) -> err!",
+		"[!(ok)] vm.frame.Lookup(vm.frame.Code.Names[p2]); ExceptionNewf(py.NameError, \"name '%s' is not defined\", vm.frame.Code.Names[p2]) -> err!",
 		"[ok] vm.frame.Lookup(vm.frame.Code.Names[p2]) -> nil",
 	}
 	// global lookup: globals, then builtins, NameError last [ceval.c]  []
 	pathSpec["vm|do_LOAD_GLOBAL"] = []string{
-		"[!(ok)] vm.frame.LookupGlobal(vm.frame.Code.Names[p2]); ExceptionNewf(py.NameError, nameErrorMsg, vm.frame.Code.Names[p2]) -> err!",
+		"[!(ok)] vm.frame.LookupGlobal(vm.frame.Code.Names[p2]); ExceptionNewf(py.NameError, \"name '%s' is not defined\", vm.frame.Code.Names[p2]) -> err!",
 		"[ok] vm.frame.LookupGlobal(vm.frame.Code.Names[p2]) -> nil",
 	}
 	// class-body free variable: the class namespace first, then the cell of the enclosing function, unbound error last [ceval.c]  []
 	pathSpec["vm|do_LOAD_CLASSDEREF"] = []string{
-		"[!(has(vm.frame.Locals[name])) && res != nil] _var_name(vm, p2); vm.frame.CellAndFreeVars[p2].Get() -> nil",
-		"[!(has(vm.frame.Locals[name])) && res == nil] _var_name(vm, p2); vm.frame.CellAndFreeVars[p2].Get(); unboundDeref(vm, p2) -> vm.unboundDeref#0",
+		"[!(has(vm.frame.Locals[name])) && (*py.Cell).Get#0 != nil] _var_name(vm, p2); vm.frame.CellAndFreeVars[p2].Get() -> nil",
+		"[!(has(vm.frame.Locals[name])) && (*py.Cell).Get#0 == nil] _var_name(vm, p2); vm.frame.CellAndFreeVars[p2].Get(); unboundDeref(vm, p2) -> vm.unboundDeref#0",
 		"[has(vm.frame.Locals[name])] _var_name(vm, p2) -> nil",
 	}
 	// free/cell variable read: the cell's content, unbound error when empty [ceval.c]  []
 	pathSpec["vm|do_LOAD_DEREF"] = []string{
-		"[res != nil] vm.frame.CellAndFreeVars[p2].Get() -> nil",
-		"[res == nil] vm.frame.CellAndFreeVars[p2].Get(); unboundDeref(vm, p2) -> vm.unboundDeref#0",
+		"[(*py.Cell).Get#0 != nil] vm.frame.CellAndFreeVars[p2].Get() -> nil",
+		"[(*py.Cell).Get#0 == nil] vm.frame.CellAndFreeVars[p2].Get(); unboundDeref(vm, p2) -> vm.unboundDeref#0",
 	}
 	// name store goes to the frame's locals [ceval.c]  []
 	pathSpec["vm|do_STORE_NAME"] = []string{
@@ -138,7 +138,7 @@ func init() {
 	}
 	// name delete removes from the frame's locals, NameError when absent [ceval.c]  []
 	pathSpec["vm|do_DELETE_NAME"] = []string{
-		"[!(has(vm.frame.Locals[name]))] ExceptionNewf(py.NameError, nameErrorMsg, vm.frame.Code.Names[p2]) -> err!",
+		"[!(has(vm.frame.Locals[name]))] ExceptionNewf(py.NameError, \"name '%s' is not defined\", vm.frame.Code.Names[p2]) -> err!",
 		"[has(vm.frame.Locals[name])]  -> nil",
 	}
 	// global store goes to the frame's globals [ceval.c]  []
@@ -147,7 +147,7 @@ func init() {
 	}
 	// global delete removes from the frame's globals, NameError when absent [ceval.c]  []
 	pathSpec["vm|do_DELETE_GLOBAL"] = []string{
-		"[!(has(vm.frame.Globals[name]))] ExceptionNewf(py.NameError, nameErrorMsg, vm.frame.Code.Names[p2]) -> err!",
+		"[!(has(vm.frame.Globals[name]))] ExceptionNewf(py.NameError, \"name '%s' is not defined\", vm.frame.Code.Names[p2]) -> err!",
 		"[has(vm.frame.Globals[name])]  -> nil",
 	}
 	// cell store sets the cell of slot i [ceval.c]  []
@@ -191,24 +191,24 @@ func init() {
 	}
 	// list item and slice assignment: indices from GetIndices/IndexIntCheck; simple slices read the operand first, copy the tail unconditionally, splice; extended slices check the length and store by counting slicelength items [listobject.c list_ass_subscript]  []
 	pathSpec["py|List.M__setitem__"] = []string{
-		"[!(p1.(*Slice)) && err != nil] IndexIntCheck(p1, len(recv.Items)) -> nil, err!",
-		"[!(p1.(*Slice)) && err == nil] IndexIntCheck(p1, len(recv.Items)); recv.Items[i] = p2 -> None, nil",
-		"[err != nil && p1.(*Slice)] p1.GetIndices(len(recv.Items)) -> nil, err!",
-		"[err == nil && len(py.SequenceTuple#0) - ret#3:slice.GetIndices(len(recv.Items)) != 0 && p1.(*Slice) && ret#2:slice.GetIndices(len(recv.Items)) != 1] p1.GetIndices(len(recv.Items)); SequenceTuple(p2); ExceptionNewf(ValueError, lit, len(py.SequenceTuple#0), ret#3:slice.GetIndices(len(recv.Items))) -> nil, err!",
-		"[err == nil && len(py.SequenceTuple#0) - ret#3:slice.GetIndices(len(recv.Items)) == 0 && p1.(*Slice) && ret#2:slice.GetIndices(len(recv.Items)) != 1] p1.GetIndices(len(recv.Items)); SequenceTuple(p2); LOOP(for i, j := start, 0; j < slicelength; i, j = i+step, j+1){[]  } -> None, nil",
-		"[err == nil && p1.(*Slice) && ret#0:slice.GetIndices(len(recv.Items)) - ret#1:slice.GetIndices(len(recv.Items)) <= 0 && ret#2:slice.GetIndices(len(recv.Items)) == 1] p1.GetIndices(len(recv.Items)); SequenceTuple(p2); recv.Items = append(recv.Items[:start], py.SequenceTuple#0); recv.Items = append(recv.Items, copy-of[recv.Items[stop:]]) -> None, nil",
-		"[err == nil && p1.(*Slice) && ret#0:slice.GetIndices(len(recv.Items)) - ret#1:slice.GetIndices(len(recv.Items)) >= 1 && ret#2:slice.GetIndices(len(recv.Items)) == 1] p1.GetIndices(len(recv.Items)); SequenceTuple(p2); recv.Items = append(recv.Items[:start], py.SequenceTuple#0); recv.Items = append(recv.Items, copy-of[recv.Items[stop:]]) -> None, nil",
-		"[err == nil && p1.(*Slice)] p1.GetIndices(len(recv.Items)); SequenceTuple(p2) -> nil, err!",
+		"[!(p1.(*Slice)) && py.IndexIntCheck#1 != nil] IndexIntCheck(p1, len(recv.Items)) -> nil, err!",
+		"[!(p1.(*Slice)) && py.IndexIntCheck#1 == nil] IndexIntCheck(p1, len(recv.Items)); recv.Items[i] = p2 -> None, nil",
+		"[(*py.Slice).GetIndices#4 != nil && p1.(*Slice)] p1.GetIndices(len(recv.Items)) -> nil, err!",
+		"[(*py.Slice).GetIndices#4 == nil && len(py.SequenceTuple#0) - ret#3:slice.GetIndices(len(recv.Items)) != 0 && p1.(*Slice) && py.SequenceTuple#1 == nil && ret#2:slice.GetIndices(len(recv.Items)) != 1] p1.GetIndices(len(recv.Items)); SequenceTuple(p2); ExceptionNewf(ValueError, \"attempt to assign sequence of s…#fbdadfd3\", len(py.SequenceTuple#0), ret#3:slice.GetIndices(len(recv.Items))) -> nil, err!",
+		"[(*py.Slice).GetIndices#4 == nil && len(py.SequenceTuple#0) - ret#3:slice.GetIndices(len(recv.Items)) == 0 && p1.(*Slice) && py.SequenceTuple#1 == nil && ret#2:slice.GetIndices(len(recv.Items)) != 1] p1.GetIndices(len(recv.Items)); SequenceTuple(p2); LOOP(for i, j := start, 0; j < slicelength; i, j = i+step, j+1){[]  } -> None, nil",
+		"[(*py.Slice).GetIndices#4 == nil && p1.(*Slice) && py.SequenceTuple#1 != nil] p1.GetIndices(len(recv.Items)); SequenceTuple(p2) -> nil, err!",
+		"[(*py.Slice).GetIndices#4 == nil && p1.(*Slice) && py.SequenceTuple#1 == nil && ret#0:slice.GetIndices(len(recv.Items)) - ret#1:slice.GetIndices(len(recv.Items)) <= 0 && ret#2:slice.GetIndices(len(recv.Items)) == 1] p1.GetIndices(len(recv.Items)); SequenceTuple(p2); recv.Items = append(recv.Items[:start], py.SequenceTuple#0); recv.Items = append(recv.Items, copy-of[recv.Items[stop:]]) -> None, nil",
+		"[(*py.Slice).GetIndices#4 == nil && p1.(*Slice) && py.SequenceTuple#1 == nil && ret#0:slice.GetIndices(len(recv.Items)) - ret#1:slice.GetIndices(len(recv.Items)) >= 1 && ret#2:slice.GetIndices(len(recv.Items)) == 1] p1.GetIndices(len(recv.Items)); SequenceTuple(p2); recv.Items = append(recv.Items[:start], py.SequenceTuple#0); recv.Items = append(recv.Items, copy-of[recv.Items[stop:]]) -> None, nil",
 	}
 	// list item and slice deletion: simple slices clamp stop to start and splice; extended slices delete slicelength items in ascending order, starting for a negative step from start+step*(slicelength-1) [listobject.c list_ass_subscript]  []
 	pathSpec["py|List.M__delitem__"] = []string{
-		"[!(p1.(*Slice)) && err != nil] IndexIntCheck(p1, len(recv.Items)) -> nil, err!",
-		"[!(p1.(*Slice)) && err == nil] IndexIntCheck(p1, len(recv.Items)); recv.DelItem(ret#0:IndexIntCheck(p1, len(recv.Items))) -> None, nil",
-		"[err != nil && p1.(*Slice)] p1.GetIndices(len(recv.Items)) -> nil, err!",
-		"[err == nil && p1.(*Slice) && ret#0:slice.GetIndices(len(recv.Items)) - ret#1:slice.GetIndices(len(recv.Items)) <= 0 && ret#2:slice.GetIndices(len(recv.Items)) == 1] p1.GetIndices(len(recv.Items)); recv.Items = append(recv.Items[:start], recv.Items[stop:]) -> None, nil",
-		"[err == nil && p1.(*Slice) && ret#0:slice.GetIndices(len(recv.Items)) - ret#1:slice.GetIndices(len(recv.Items)) >= 1 && ret#2:slice.GetIndices(len(recv.Items)) == 1] p1.GetIndices(len(recv.Items)); recv.Items = append(recv.Items[:start], recv.Items[stop:]) -> None, nil",
-		"[err == nil && p1.(*Slice) && ret#2:slice.GetIndices(len(recv.Items)) != 1 && ret#2:slice.GetIndices(len(recv.Items)) <= -1] p1.GetIndices(len(recv.Items)); LOOP(for k1 = 0; k1 < slicelength; k1++){[] recv.DelItem(start + k1 * step - k1) } -> None, nil",
-		"[err == nil && p1.(*Slice) && ret#2:slice.GetIndices(len(recv.Items)) != 1 && ret#2:slice.GetIndices(len(recv.Items)) >= 0] p1.GetIndices(len(recv.Items)); LOOP(for k1 = 0; k1 < slicelength; k1++){[] recv.DelItem(start + k1 * step - k1) } -> None, nil",
+		"[!(p1.(*Slice)) && py.IndexIntCheck#1 != nil] IndexIntCheck(p1, len(recv.Items)) -> nil, err!",
+		"[!(p1.(*Slice)) && py.IndexIntCheck#1 == nil] IndexIntCheck(p1, len(recv.Items)); recv.DelItem(ret#0:IndexIntCheck(p1, len(recv.Items))) -> None, nil",
+		"[(*py.Slice).GetIndices#4 != nil && p1.(*Slice)] p1.GetIndices(len(recv.Items)) -> nil, err!",
+		"[(*py.Slice).GetIndices#4 == nil && p1.(*Slice) && ret#0:slice.GetIndices(len(recv.Items)) - ret#1:slice.GetIndices(len(recv.Items)) <= 0 && ret#2:slice.GetIndices(len(recv.Items)) == 1] p1.GetIndices(len(recv.Items)); recv.Items = append(recv.Items[:start], recv.Items[stop:]) -> None, nil",
+		"[(*py.Slice).GetIndices#4 == nil && p1.(*Slice) && ret#0:slice.GetIndices(len(recv.Items)) - ret#1:slice.GetIndices(len(recv.Items)) >= 1 && ret#2:slice.GetIndices(len(recv.Items)) == 1] p1.GetIndices(len(recv.Items)); recv.Items = append(recv.Items[:start], recv.Items[stop:]) -> None, nil",
+		"[(*py.Slice).GetIndices#4 == nil && p1.(*Slice) && ret#2:slice.GetIndices(len(recv.Items)) != 1 && ret#2:slice.GetIndices(len(recv.Items)) <= -1] p1.GetIndices(len(recv.Items)); LOOP(for k1 = 0; k1 < slicelength; k1++){[] recv.DelItem(start + k1 * step - k1) } -> None, nil",
+		"[(*py.Slice).GetIndices#4 == nil && p1.(*Slice) && ret#2:slice.GetIndices(len(recv.Items)) != 1 && ret#2:slice.GetIndices(len(recv.Items)) >= 0] p1.GetIndices(len(recv.Items)); LOOP(for k1 = 0; k1 < slicelength; k1++){[] recv.DelItem(start + k1 * step - k1) } -> None, nil",
 	}
 	// in-place set operators adopt the result of the binary operator unconditionally and evaluate to the receiver  []
 	pathSpec["py|Set.inPlace"] = []string{
@@ -218,29 +218,29 @@ func init() {
 	}
 	// sort comparison: items fetched, key function applied to both, then a strict less-than with the operands exchanged for reverse (not the result inverted, which is not a strict order and breaks stability)  []
 	pathSpec["py|ptrSortable.Less"] = []string{
-		"[!(cmpResult.(Bool)) && !(recv.recv.reverse) && err == nil && recv.recv.keyFunc != None] recv.s.l.M__getitem__(p1); recv.s.l.M__getitem__(p2); Call(recv.s.keyFunc, composite[(*py.List).M__getitem__#0], nil); Call(recv.s.keyFunc, composite[(*py.List).M__getitem__#0'2], nil); Lt(py.Call#0, py.Call#0'2) -> false",
-		"[!(cmpResult.(Bool)) && !(recv.recv.reverse) && err == nil && recv.recv.keyFunc == None] recv.s.l.M__getitem__(p1); recv.s.l.M__getitem__(p2); Lt((*py.List).M__getitem__#0, (*py.List).M__getitem__#0'2) -> false",
-		"[!(cmpResult.(Bool)) && err == nil && recv.recv.keyFunc != None && recv.recv.reverse] recv.s.l.M__getitem__(p1); recv.s.l.M__getitem__(p2); Call(recv.s.keyFunc, composite[(*py.List).M__getitem__#0], nil); Call(recv.s.keyFunc, composite[(*py.List).M__getitem__#0'2], nil); Lt(py.Call#0'2, py.Call#0) -> false",
-		"[!(cmpResult.(Bool)) && err == nil && recv.recv.keyFunc == None && recv.recv.reverse] recv.s.l.M__getitem__(p1); recv.s.l.M__getitem__(p2); Lt((*py.List).M__getitem__#0'2, (*py.List).M__getitem__#0) -> false",
-		"[!(recv.recv.reverse) && cmpResult.(Bool) && err == nil && recv.recv.keyFunc != None] recv.s.l.M__getitem__(p1); recv.s.l.M__getitem__(p2); Call(recv.s.keyFunc, composite[(*py.List).M__getitem__#0], nil); Call(recv.s.keyFunc, composite[(*py.List).M__getitem__#0'2], nil); Lt(py.Call#0, py.Call#0'2) -> py.Lt#0",
-		"[!(recv.recv.reverse) && cmpResult.(Bool) && err == nil && recv.recv.keyFunc == None] recv.s.l.M__getitem__(p1); recv.s.l.M__getitem__(p2); Lt((*py.List).M__getitem__#0, (*py.List).M__getitem__#0'2) -> py.Lt#0",
-		"[!(recv.recv.reverse) && err == nil && recv.recv.firstErr != nil && recv.recv.keyFunc != None] recv.s.l.M__getitem__(p1); recv.s.l.M__getitem__(p2); Call(recv.s.keyFunc, composite[(*py.List).M__getitem__#0], nil); Call(recv.s.keyFunc, composite[(*py.List).M__getitem__#0'2], nil); Lt(py.Call#0, py.Call#0'2) -> false",
-		"[!(recv.recv.reverse) && err == nil && recv.recv.firstErr != nil && recv.recv.keyFunc == None] recv.s.l.M__getitem__(p1); recv.s.l.M__getitem__(p2); Lt((*py.List).M__getitem__#0, (*py.List).M__getitem__#0'2) -> false",
-		"[!(recv.recv.reverse) && err == nil && recv.recv.firstErr == nil && recv.recv.keyFunc != None] recv.s.l.M__getitem__(p1); recv.s.l.M__getitem__(p2); Call(recv.s.keyFunc, composite[(*py.List).M__getitem__#0], nil); Call(recv.s.keyFunc, composite[(*py.List).M__getitem__#0'2], nil); Lt(py.Call#0, py.Call#0'2); recv.recv.firstErr = err! -> false",
-		"[!(recv.recv.reverse) && err == nil && recv.recv.firstErr == nil && recv.recv.keyFunc == None] recv.s.l.M__getitem__(p1); recv.s.l.M__getitem__(p2); Lt((*py.List).M__getitem__#0, (*py.List).M__getitem__#0'2); recv.recv.firstErr = err! -> false",
-		"[cmpResult.(Bool) && err == nil && recv.recv.keyFunc != None && recv.recv.reverse] recv.s.l.M__getitem__(p1); recv.s.l.M__getitem__(p2); Call(recv.s.keyFunc, composite[(*py.List).M__getitem__#0], nil); Call(recv.s.keyFunc, composite[(*py.List).M__getitem__#0'2], nil); Lt(py.Call#0'2, py.Call#0) -> py.Lt#0",
-		"[cmpResult.(Bool) && err == nil && recv.recv.keyFunc == None && recv.recv.reverse] recv.s.l.M__getitem__(p1); recv.s.l.M__getitem__(p2); Lt((*py.List).M__getitem__#0'2, (*py.List).M__getitem__#0) -> py.Lt#0",
-		"[err != nil && recv.recv.firstErr != nil] recv.s.l.M__getitem__(p1) -> false",
-		"[err != nil && recv.recv.firstErr == nil] recv.s.l.M__getitem__(p1); recv.recv.firstErr = err! -> false",
-		"[err == nil && recv.recv.firstErr != nil && recv.recv.keyFunc != None && recv.recv.reverse] recv.s.l.M__getitem__(p1); recv.s.l.M__getitem__(p2); Call(recv.s.keyFunc, composite[(*py.List).M__getitem__#0], nil); Call(recv.s.keyFunc, composite[(*py.List).M__getitem__#0'2], nil); Lt(py.Call#0'2, py.Call#0) -> false",
-		"[err == nil && recv.recv.firstErr != nil && recv.recv.keyFunc != None] recv.s.l.M__getitem__(p1); recv.s.l.M__getitem__(p2); Call(recv.s.keyFunc, composite[(*py.List).M__getitem__#0], nil) -> false",
-		"[err == nil && recv.recv.firstErr != nil && recv.recv.keyFunc != None] recv.s.l.M__getitem__(p1); recv.s.l.M__getitem__(p2); Call(recv.s.keyFunc, composite[(*py.List).M__getitem__#0], nil); Call(recv.s.keyFunc, composite[(*py.List).M__getitem__#0'2], nil) -> false",
-		"[err == nil && recv.recv.firstErr != nil && recv.recv.keyFunc == None && recv.recv.reverse] recv.s.l.M__getitem__(p1); recv.s.l.M__getitem__(p2); Lt((*py.List).M__getitem__#0'2, (*py.List).M__getitem__#0) -> false",
-		"[err == nil && recv.recv.firstErr != nil] recv.s.l.M__getitem__(p1); recv.s.l.M__getitem__(p2) -> false",
-		"[err == nil && recv.recv.firstErr == nil && recv.recv.keyFunc != None && recv.recv.reverse] recv.s.l.M__getitem__(p1); recv.s.l.M__getitem__(p2); Call(recv.s.keyFunc, composite[(*py.List).M__getitem__#0], nil); Call(recv.s.keyFunc, composite[(*py.List).M__getitem__#0'2], nil); Lt(py.Call#0'2, py.Call#0); recv.recv.firstErr = err! -> false",
-		"[err == nil && recv.recv.firstErr == nil && recv.recv.keyFunc != None] recv.s.l.M__getitem__(p1); recv.s.l.M__getitem__(p2); Call(recv.s.keyFunc, composite[(*py.List).M__getitem__#0], nil); Call(recv.s.keyFunc, composite[(*py.List).M__getitem__#0'2], nil); recv.recv.firstErr = err! -> false",
-		"[err == nil && recv.recv.firstErr == nil && recv.recv.keyFunc != None] recv.s.l.M__getitem__(p1); recv.s.l.M__getitem__(p2); Call(recv.s.keyFunc, composite[(*py.List).M__getitem__#0], nil); recv.recv.firstErr = err! -> false",
-		"[err == nil && recv.recv.firstErr == nil && recv.recv.keyFunc == None && recv.recv.reverse] recv.s.l.M__getitem__(p1); recv.s.l.M__getitem__(p2); Lt((*py.List).M__getitem__#0'2, (*py.List).M__getitem__#0); recv.recv.firstErr = err! -> false",
-		"[err == nil && recv.recv.firstErr == nil] recv.s.l.M__getitem__(p1); recv.s.l.M__getitem__(p2); recv.recv.firstErr = err! -> false",
+		"[!(cmpResult.(Bool)) && !(recv.recv.reverse) && (*py.List).M__getitem__#1 == nil && (*py.List).M__getitem__#1'2 == nil && py.Call#1 == nil && py.Call#1'2 == nil && py.Lt#1 == nil && recv.recv.keyFunc != None] recv.s.l.M__getitem__(p1); recv.s.l.M__getitem__(p2); Call(recv.s.keyFunc, composite[(*py.List).M__getitem__#0], nil); Call(recv.s.keyFunc, composite[(*py.List).M__getitem__#0'2], nil); Lt(py.Call#0, py.Call#0'2) -> false",
+		"[!(cmpResult.(Bool)) && !(recv.recv.reverse) && (*py.List).M__getitem__#1 == nil && (*py.List).M__getitem__#1'2 == nil && py.Lt#1 == nil && recv.recv.keyFunc == None] recv.s.l.M__getitem__(p1); recv.s.l.M__getitem__(p2); Lt((*py.List).M__getitem__#0, (*py.List).M__getitem__#0'2) -> false",
+		"[!(cmpResult.(Bool)) && (*py.List).M__getitem__#1 == nil && (*py.List).M__getitem__#1'2 == nil && py.Call#1 == nil && py.Call#1'2 == nil && py.Lt#1 == nil && recv.recv.keyFunc != None && recv.recv.reverse] recv.s.l.M__getitem__(p1); recv.s.l.M__getitem__(p2); Call(recv.s.keyFunc, composite[(*py.List).M__getitem__#0], nil); Call(recv.s.keyFunc, composite[(*py.List).M__getitem__#0'2], nil); Lt(py.Call#0'2, py.Call#0) -> false",
+		"[!(cmpResult.(Bool)) && (*py.List).M__getitem__#1 == nil && (*py.List).M__getitem__#1'2 == nil && py.Lt#1 == nil && recv.recv.keyFunc == None && recv.recv.reverse] recv.s.l.M__getitem__(p1); recv.s.l.M__getitem__(p2); Lt((*py.List).M__getitem__#0'2, (*py.List).M__getitem__#0) -> false",
+		"[!(recv.recv.reverse) && (*py.List).M__getitem__#1 == nil && (*py.List).M__getitem__#1'2 == nil && cmpResult.(Bool) && py.Call#1 == nil && py.Call#1'2 == nil && py.Lt#1 == nil && recv.recv.keyFunc != None] recv.s.l.M__getitem__(p1); recv.s.l.M__getitem__(p2); Call(recv.s.keyFunc, composite[(*py.List).M__getitem__#0], nil); Call(recv.s.keyFunc, composite[(*py.List).M__getitem__#0'2], nil); Lt(py.Call#0, py.Call#0'2) -> py.Lt#0",
+		"[!(recv.recv.reverse) && (*py.List).M__getitem__#1 == nil && (*py.List).M__getitem__#1'2 == nil && cmpResult.(Bool) && py.Lt#1 == nil && recv.recv.keyFunc == None] recv.s.l.M__getitem__(p1); recv.s.l.M__getitem__(p2); Lt((*py.List).M__getitem__#0, (*py.List).M__getitem__#0'2) -> py.Lt#0",
+		"[!(recv.recv.reverse) && (*py.List).M__getitem__#1 == nil && (*py.List).M__getitem__#1'2 == nil && py.Call#1 == nil && py.Call#1'2 == nil && py.Lt#1 != nil && recv.recv.firstErr != nil && recv.recv.keyFunc != None] recv.s.l.M__getitem__(p1); recv.s.l.M__getitem__(p2); Call(recv.s.keyFunc, composite[(*py.List).M__getitem__#0], nil); Call(recv.s.keyFunc, composite[(*py.List).M__getitem__#0'2], nil); Lt(py.Call#0, py.Call#0'2) -> false",
+		"[!(recv.recv.reverse) && (*py.List).M__getitem__#1 == nil && (*py.List).M__getitem__#1'2 == nil && py.Call#1 == nil && py.Call#1'2 == nil && py.Lt#1 != nil && recv.recv.firstErr == nil && recv.recv.keyFunc != None] recv.s.l.M__getitem__(p1); recv.s.l.M__getitem__(p2); Call(recv.s.keyFunc, composite[(*py.List).M__getitem__#0], nil); Call(recv.s.keyFunc, composite[(*py.List).M__getitem__#0'2], nil); Lt(py.Call#0, py.Call#0'2); recv.recv.firstErr = err! -> false",
+		"[!(recv.recv.reverse) && (*py.List).M__getitem__#1 == nil && (*py.List).M__getitem__#1'2 == nil && py.Lt#1 != nil && recv.recv.firstErr != nil && recv.recv.keyFunc == None] recv.s.l.M__getitem__(p1); recv.s.l.M__getitem__(p2); Lt((*py.List).M__getitem__#0, (*py.List).M__getitem__#0'2) -> false",
+		"[!(recv.recv.reverse) && (*py.List).M__getitem__#1 == nil && (*py.List).M__getitem__#1'2 == nil && py.Lt#1 != nil && recv.recv.firstErr == nil && recv.recv.keyFunc == None] recv.s.l.M__getitem__(p1); recv.s.l.M__getitem__(p2); Lt((*py.List).M__getitem__#0, (*py.List).M__getitem__#0'2); recv.recv.firstErr = err! -> false",
+		"[(*py.List).M__getitem__#1 != nil && recv.recv.firstErr != nil] recv.s.l.M__getitem__(p1) -> false",
+		"[(*py.List).M__getitem__#1 != nil && recv.recv.firstErr == nil] recv.s.l.M__getitem__(p1); recv.recv.firstErr = err! -> false",
+		"[(*py.List).M__getitem__#1 == nil && (*py.List).M__getitem__#1'2 != nil && recv.recv.firstErr != nil] recv.s.l.M__getitem__(p1); recv.s.l.M__getitem__(p2) -> false",
+		"[(*py.List).M__getitem__#1 == nil && (*py.List).M__getitem__#1'2 != nil && recv.recv.firstErr == nil] recv.s.l.M__getitem__(p1); recv.s.l.M__getitem__(p2); recv.recv.firstErr = err! -> false",
+		"[(*py.List).M__getitem__#1 == nil && (*py.List).M__getitem__#1'2 == nil && cmpResult.(Bool) && py.Call#1 == nil && py.Call#1'2 == nil && py.Lt#1 == nil && recv.recv.keyFunc != None && recv.recv.reverse] recv.s.l.M__getitem__(p1); recv.s.l.M__getitem__(p2); Call(recv.s.keyFunc, composite[(*py.List).M__getitem__#0], nil); Call(recv.s.keyFunc, composite[(*py.List).M__getitem__#0'2], nil); Lt(py.Call#0'2, py.Call#0) -> py.Lt#0",
+		"[(*py.List).M__getitem__#1 == nil && (*py.List).M__getitem__#1'2 == nil && cmpResult.(Bool) && py.Lt#1 == nil && recv.recv.keyFunc == None && recv.recv.reverse] recv.s.l.M__getitem__(p1); recv.s.l.M__getitem__(p2); Lt((*py.List).M__getitem__#0'2, (*py.List).M__getitem__#0) -> py.Lt#0",
+		"[(*py.List).M__getitem__#1 == nil && (*py.List).M__getitem__#1'2 == nil && py.Call#1 != nil && recv.recv.firstErr != nil && recv.recv.keyFunc != None] recv.s.l.M__getitem__(p1); recv.s.l.M__getitem__(p2); Call(recv.s.keyFunc, composite[(*py.List).M__getitem__#0], nil) -> false",
+		"[(*py.List).M__getitem__#1 == nil && (*py.List).M__getitem__#1'2 == nil && py.Call#1 != nil && recv.recv.firstErr == nil && recv.recv.keyFunc != None] recv.s.l.M__getitem__(p1); recv.s.l.M__getitem__(p2); Call(recv.s.keyFunc, composite[(*py.List).M__getitem__#0], nil); recv.recv.firstErr = err! -> false",
+		"[(*py.List).M__getitem__#1 == nil && (*py.List).M__getitem__#1'2 == nil && py.Call#1 == nil && py.Call#1'2 != nil && recv.recv.firstErr != nil && recv.recv.keyFunc != None] recv.s.l.M__getitem__(p1); recv.s.l.M__getitem__(p2); Call(recv.s.keyFunc, composite[(*py.List).M__getitem__#0], nil); Call(recv.s.keyFunc, composite[(*py.List).M__getitem__#0'2], nil) -> false",
+		"[(*py.List).M__getitem__#1 == nil && (*py.List).M__getitem__#1'2 == nil && py.Call#1 == nil && py.Call#1'2 != nil && recv.recv.firstErr == nil && recv.recv.keyFunc != None] recv.s.l.M__getitem__(p1); recv.s.l.M__getitem__(p2); Call(recv.s.keyFunc, composite[(*py.List).M__getitem__#0], nil); Call(recv.s.keyFunc, composite[(*py.List).M__getitem__#0'2], nil); recv.recv.firstErr = err! -> false",
+		"[(*py.List).M__getitem__#1 == nil && (*py.List).M__getitem__#1'2 == nil && py.Call#1 == nil && py.Call#1'2 == nil && py.Lt#1 != nil && recv.recv.firstErr != nil && recv.recv.keyFunc != None && recv.recv.reverse] recv.s.l.M__getitem__(p1); recv.s.l.M__getitem__(p2); Call(recv.s.keyFunc, composite[(*py.List).M__getitem__#0], nil); Call(recv.s.keyFunc, composite[(*py.List).M__getitem__#0'2], nil); Lt(py.Call#0'2, py.Call#0) -> false",
+		"[(*py.List).M__getitem__#1 == nil && (*py.List).M__getitem__#1'2 == nil && py.Call#1 == nil && py.Call#1'2 == nil && py.Lt#1 != nil && recv.recv.firstErr == nil && recv.recv.keyFunc != None && recv.recv.reverse] recv.s.l.M__getitem__(p1); recv.s.l.M__getitem__(p2); Call(recv.s.keyFunc, composite[(*py.List).M__getitem__#0], nil); Call(recv.s.keyFunc, composite[(*py.List).M__getitem__#0'2], nil); Lt(py.Call#0'2, py.Call#0); recv.recv.firstErr = err! -> false",
+		"[(*py.List).M__getitem__#1 == nil && (*py.List).M__getitem__#1'2 == nil && py.Lt#1 != nil && recv.recv.firstErr != nil && recv.recv.keyFunc == None && recv.recv.reverse] recv.s.l.M__getitem__(p1); recv.s.l.M__getitem__(p2); Lt((*py.List).M__getitem__#0'2, (*py.List).M__getitem__#0) -> false",
+		"[(*py.List).M__getitem__#1 == nil && (*py.List).M__getitem__#1'2 == nil && py.Lt#1 != nil && recv.recv.firstErr == nil && recv.recv.keyFunc == None && recv.recv.reverse] recv.s.l.M__getitem__(p1); recv.s.l.M__getitem__(p2); Lt((*py.List).M__getitem__#0'2, (*py.List).M__getitem__#0); recv.recv.firstErr = err! -> false",
 	}
 }
